@@ -222,10 +222,11 @@ impl<'a> Exec<'a> {
             self.viol.push(v("C16", format!("tdigest/{}/count", s), self.step, format!("{}: count() = {}, sum of inserted weights = {}", ctx, c, a.sw)));
         }
         let sm = d.sum();
-        if (sm - a.sxw).abs() > 1e-9 * a.saxw {
+        // (sums whose absolute total overflows f64 are outside "floating-point accumulation accuracy")
+        if a.saxw.is_finite() && (sm - a.sxw).abs() > 1e-9 * a.saxw {
             self.viol.push(v("C16", format!("tdigest/{}/sum", s), self.step, format!("{}: sum() = {}, weighted sum of inserted values = {}", ctx, sm, a.sxw)));
         }
-        if a.n_ins > 0 {
+        if a.n_ins > 0 && a.saxw.is_finite() {
             let me = d.mean();
             let want = a.sxw / a.sw;
             if !((me - want).abs() <= 1e-9 * a.saxw / a.sw) {
@@ -281,8 +282,14 @@ impl<'a> Exec<'a> {
         let mag = a.min.abs().max(a.max.abs());
         let range = a.max - a.min;
         let kappa = (a.sw / a.minw).max(1.0);
+        // data spanning more than f64::MAX: only the quantile clauses are meaningful (the value-space
+        // tolerance is taken from the magnitude, cdf interpolation over such a gap is degenerate)
+        let extreme = !range.is_finite();
         // value-space tolerance: a centroid mean is a sum of up to kappa terms divided by its weight
-        let tol_v = 8.0 * ULP * kappa * (mag + range);
+        let tol_v = if extreme { 8.0 * ULP * kappa * mag } else { 8.0 * ULP * kappa * (mag + range) };
+        if extreme {
+            self.stats.probe("range_exceeds_f64_max");
+        }
         if tol_v > 1e-3 * range && range > 0.0 {
             self.stats.probe("value_checks_ill_conditioned");
         }
@@ -353,7 +360,7 @@ impl<'a> Exec<'a> {
         if nc > 1 && d.quantile((1.0 - 0.25 / a.sw).clamp(0.0, 1.0)) < a.max - tol_v {
             self.stats.probe("fused_centroid_at_tail");
         }
-        if !self.viol.is_empty() {
+        if !self.viol.is_empty() || extreme {
             return;
         }
 
@@ -752,10 +759,11 @@ impl Scenario for S4 {
         let n = n.max(1);
         let (mut vals, mut pattern, mut smooth, mut generic) = gen_values(&mut g, n);
         let (mut scale, mut delta, mut n) = (scale, delta, n);
-        if prop == "C04" && g.chance(1, 25) {
+        let extreme_for_c15 = prop == "C15" && g.chance(1, 40);
+        if (prop == "C04" && g.chance(1, 25)) || extreme_for_c15 {
             // numeric extremes; only C04's rank-space oracle is meaningful for them (value-space
             // tolerances overflow / underflow), so the other digest checks do not get these
-            if g.chance(1, 2) {
+            if extreme_for_c15 || g.chance(1, 2) {
                 // distinct values within 2 % of +-f64::MAX/1.8: neighbours are more than f64::MAX apart.
                 // Fused sums would overflow on any implementation, so the digest is kept in the regime
                 // where every centroid is a singleton (K0 / K1, delta 1000, n <= 240).
@@ -779,11 +787,15 @@ impl Scenario for S4 {
             smooth = false;
             generic = true;
         }
-        let weighted = prop != "C04" && g.chance(1, 2);
+        let weighted = prop != "C04" && !extreme_for_c15 && g.chance(1, 2);
         let wspan = if prop == "C16" { 6.0 } else { 1.5 };
         // C16 only (aggregates are stated for every positive weight); every run of such a digest is
         // ill-conditioned for the rank checks, which C15 / C04 therefore do not get
         let tiny_weights = prop == "C16" && g.chance(1, 6);
+        // a common factor on all weights (total weight over smallest weight is unchanged): products of a
+        // centroid's sum and another one's count then overflow / underflow f64 although every sum, count and
+        // mean is perfectly representable
+        let wfactor: f64 = if weighted && !tiny_weights && g.chance(1, 8) { *g.pick(&[1e160, 1e-170, 1e120, 1e-100]) } else { 1.0 };
         let read_rate = *g.pick(&[0u64, 0, 1, 5, 20, 100, 500, 1000]); // per mille, per insert
         let n_checks = g.range(0, 3);
         let mut check_at: Vec<usize> = (0..n_checks).map(|_| g.usize(n)).collect();
@@ -801,7 +813,7 @@ impl Scenario for S4 {
                 } else {
                     10f64.powf((g.f64() * 2.0 - 1.0) * wspan)
                 };
-                ops.push(DOp::InsW(if tiny_weights && g.chance(1, 50) { -0.0 } else { x }, w));
+                ops.push(DOp::InsW(if tiny_weights && g.chance(1, 50) { -0.0 } else { x }, w * wfactor));
             } else {
                 ops.push(DOp::Ins(x));
             }
